@@ -88,10 +88,27 @@ class InjectedFault(OSError):
 
 
 class _FaultyHandle:
-    def __init__(self, fs: 'FaultyStorage', inner, label):
+    def __init__(self, fs: 'FaultyStorage', inner, label, deferred=False):
         self._fs, self._inner, self._label = fs, inner, label
+        # deferred: a storage whose write errors only surface at flush/close (full disk behind a
+        # buffer, commit-on-close remote file): writes are accepted, close() fails, nothing is stored
+        self._deferred = deferred
+        self._closed = False
+
+    def __del__(self):
+        # what garbage collection does to a handle that was never closed: close it and
+        # swallow any error
+        try:
+            if not self._closed:
+                self._closed = True
+                self._inner.close()
+        except BaseException:  # noqa
+            pass
 
     def write(self, data):
+        if self._deferred:
+            self._fs.trace.append(('write-buffered', self._label))
+            return len(data)
         mode = self._fs.point(('write', self._label))
         if mode == 'raise':
             raise InjectedFault(f'injected fault at write of {self._label}')
@@ -101,6 +118,13 @@ class _FaultyHandle:
         return self._inner.write(data)
 
     def close(self):
+        if self._closed:
+            return
+        self._closed = True
+        if self._deferred:
+            self._inner.close()
+            self._fs.fired = ('close-loses-data', self._label)
+            raise InjectedFault(f'injected fault: the data written to {self._label} could not be flushed at close')
         mode = self._fs.point(('close', self._label))
         self._inner.close()
         if mode is not None:
@@ -124,10 +148,12 @@ class FaultyStorage(Storage):
     """Wraps a Storage; operation number `at` (1-based, counted over file_handle
     calls for writing, write() calls and close() calls) fails in the given mode."""
 
-    def __init__(self, inner: Storage, *, at=None, mode='raise'):
+    def __init__(self, inner: Storage, *, at=None, mode='raise', defer_open=None):
         self.inner = inner
         self.at = at
         self.mode = mode
+        self.defer_open = defer_open      # the n-th open-for-write returns a handle whose data is lost at close
+        self.opens = 0
         self.n = 0
         self.trace: list = []
         self.fired = None
@@ -151,7 +177,9 @@ class FaultyStorage(Storage):
             return self.inner.file_handle(key, filename, mode=mode)
         if self.point(('open', filename, mode)) is not None:
             raise InjectedFault(f'injected fault opening {filename}')
-        return _FaultyHandle(self, self.inner.file_handle(key, filename, mode=mode), filename)
+        self.opens += 1
+        return _FaultyHandle(self, self.inner.file_handle(key, filename, mode=mode), filename,
+                             deferred=(self.defer_open is not None and self.opens == self.defer_open))
 
     def delete(self, key):
         return self.inner.delete(key)
